@@ -112,6 +112,20 @@ pub mod shim {
         }
     }
     impl<T> Unpin for JoinHandle<T> {}
+    /// yields once to the executor (wakes itself)
+    pub async fn yield_now() {
+        let mut yielded = false;
+        std::future::poll_fn(move |cx| {
+            if yielded {
+                Poll::Ready(())
+            } else {
+                yielded = true;
+                cx.waker().wake_by_ref();
+                Poll::Pending
+            }
+        })
+        .await
+    }
     pub fn spawn<F>(f: F) -> JoinHandle<F::Output>
     where
         F: Future + Send + 'static,
